@@ -137,7 +137,11 @@ def chains(run):
                         bound = z3.fpAdd(z3.RNE(), z3.fpMul(z3.RNE(), z3.FPVal(0.5 + 256 * eps, D), sd), z3.FPVal(4 * den, D))
                     facts2 = finite_inputs(E, srt, 2)
                     if fam == "float8" or run.tier == "thorough":
-                        run.add(f"C16/error-bounded-moderate[{tag}]/path{pi}", hy + facts2 + [moderate], z3.fpLEQ(err, bound), "property", inst, replay=rp, timeout=FT)
+                        # the bound presupposes a scale with full precision: carved at "the scale is a normal number of the dtype"
+                        s_normal = z3.fpGEQ(s, z3.FPVal({"float16": 2.0**-14, "bfloat16": 2.0**-126, "float32": 2.0**-126}[dtype], srt))
+                        run.add(f"C16/error-bounded-moderate[{tag}]/path{pi}", hy + facts2 + [moderate, s_normal], z3.fpLEQ(err, bound), "property", inst, replay=rp, timeout=FT)
+                        run.add(f"C16/{fam}/error-bounded-with-a-subnormal-scale[{tag}]/path{pi}", hy + facts2 + [moderate, z3.Not(s_normal)], z3.fpLEQ(err, bound), "property", inst,
+                                replay=lambda m, sd, i=dict(inst): replay_subnormal_scale(m, sd, i), timeout=FT)
                     elif "int-error-bound" not in "".join(run.not_decided):
                         run.not_decided.append("int-error-bound: bit-precise error bound |deq-x| <= step*(1/2+256eps) for integer qtypes is attempted in the "
                                                "thorough tier only (both solvers exceed 90 s); the real-arithmetic bound is C01/C02")
@@ -239,6 +243,32 @@ def zero_layer(run):
                     want = bf(j) if bias else z3.FPVal(0.0, srt)
                     # (conditional on the lemma above: the native counterpart of a failure here is the failure of the whole clause, replayed there)
                     run.add(f"C16/{fam}/zero-layer-outputs-bias[{tag}]/path{pi}", hy + [zsum], z3.fpEQ(got, want), "property", inst, replay=rp if fam == "int" else None, timeout=FT)
+
+
+def replay_subnormal_scale(model, seed, inst):
+    """Rows whose largest magnitude is a normal number but whose scale absmax/qmax is subnormal in the dtype: error vs the grid step."""
+    import torch
+    from optimum.quanto import absmax_scale, qtypes, quantize_activation, quantize_weight
+
+    dt = {"float16": torch.float16, "bfloat16": torch.bfloat16, "float32": torch.float32}[inst["dtype"]]
+    qt = qtypes[inst["qtype"]]
+    tiny = float(torch.finfo(dt).tiny)
+    rel = {"qfloat8_e4m3fn": 2.0**-4, "qfloat8_e5m2": 2.0**-3}.get(inst["qtype"], 2.0**-7)
+    base = torch.tensor([[1.09375, 0.7, -0.33, 0.9], [0.5, 0.25, 1.0, -0.8]], dtype=torch.float64)
+    for k in (1024.0, 64.0, 4096.0):
+        x = (base * tiny * k).to(dt)
+        if inst["path"] == "weights":
+            q = quantize_weight(x, qt, 0)
+        else:
+            q = quantize_activation(x, qt, absmax_scale(x, qt))
+        if not (q._scale.abs() < tiny).any():
+            continue
+        d = q.dequantize().to(torch.float64)
+        err = ((d - x.to(torch.float64)).abs() / x.to(torch.float64).abs()).max().item()
+        if not (err <= rel * 1.25):
+            return {"what": "the scale absmax/qmax is subnormal in the dtype: the error exceeds the half step of the grid", "max_relative_error": err, "half_step_relative": rel,
+                    "scale": q._scale.flatten()[0].item(), "largest_magnitude": x.abs().max().item(), "qtype": inst["qtype"], "dtype": inst["dtype"]}
+    return None
 
 
 def replay_zero_layer(model, seed, inst, shape_only=False):
